@@ -617,7 +617,16 @@ func (o *operation) handle() {
 		return
 	}
 	rw := &responseWriter{op: o, delegate: o.writer, flusher: flusher}
-	defer rw.close()
+	defer func() {
+		if aborted := recover(); aborted != nil {
+			// The handler did not return: it aborted (http.ErrAbortHandler is
+			// how a reverse proxy reports that the upstream response broke
+			// off). What it wrote so far must not be completed into a
+			// well-formed response; let net/http abort the exchange.
+			panic(aborted)
+		}
+		rw.close()
+	}()
 	o.writer = rw
 
 	// And finally we can define the transformed request bodies.
